@@ -5,7 +5,7 @@
    harness/cmd/wiredrv. *)
 EXTENDS Wire, Json
 
-Terminal == phase \in {"done", "stop", "vec"}
+Terminal == phase \in {"done", "rewritten", "stop", "vec"}
 
 ExportRec ==
     IF phase = "vec" THEN vec
@@ -18,6 +18,7 @@ Export == Terminal => PrintT(ToJson(ExportRec))
 \* the model-level checks TLC decides (a failure here is a specification defect, not a verdict on the code)
 ModelOK == /\ TypeOK
            /\ C03_LengthsConsistent /\ C03_TooBigExact /\ C03_NeverPastCap
+           /\ C03_RewriteConsistentUnlessKF /\ C03_AliasRequiredSupported
            /\ C03_Dhcp
            /\ C07_MechWellFormedUnlessKF /\ C07_KFExact /\ C07_ExpSelfConsistent
 =============================================================================
